@@ -439,3 +439,84 @@ def check(run, prog, tier):
             run.ob("C04-g", inst, not bad, "set_error_state(%s): no re-entering call between a store in this activation and the read" % show(args[0])[:40] if not bad else bad, f.file, n.get("l"), f.name,
                    what="%s restores the limit-error state from storage that a nested error overwrites: catch() swallows the limit error (%s)" % (f.name, bad))
     run.need(ng >= 2, "set_error_state() calls with a saved value (found %d)" % ng)
+
+    # ---- C04-h a budget overrun that ends in a protected call does not leave the calling LPC code a renewed budget
+    run.rule("C04-h", "eval_instruction renews eval_cost when the budget runs out so that the error can be reported; when that error ends in a recovery point reachable from LPC code (protected calls: safe_apply, safe_call_function_pointer) the calling evaluation continues, so the recovery branch cuts eval_cost to its last tick, under a condition that can hold there: error_handler() clears the limit-error state before every jump to a recovery point that is not a catch, so a test of that state on such a branch is always false", 3)
+    import ctxstate
+    eh = run.need(prog.func("error_handler"), "error_handler")
+    run.saw(eh)
+    # (b) the clear before non-catch jumps
+    ljs = [(b, i, n) for b, i, n in eh.calls() if n.get("fn") in ("longjmp", "_longjmp", "siglongjmp")]
+    run.need(ljs, "longjmp in error_handler")
+    clears = {b.id for b, i, n in eh.calls("clear_error_state")}
+    noncatch_cleared = True
+    nnc = 0
+    for b, i, n in ljs:
+        is_catch = any(facts.any_in_macro(c, "FRAME_CATCH") and t for c, t, gb in cfgq.guards(eh, b.id))
+        if is_catch:
+            continue
+        nnc += 1
+        p = eh.reach_avoiding([eh.entry], lambda blk, target=b.id: blk.id == target, avoid_blocks=clears - {b.id})
+        inblock = any(b2.id == b.id and i2 < i for b2, i2, n2 in eh.calls("clear_error_state"))
+        okc = (p is None and b.id not in clears) or inblock or (b.id in clears and inblock)
+        if not okc:
+            noncatch_cleared = False
+        run.ob("C04-h", "cleared-before-jump:%d" % nnc, okc, "clear_error_state() precedes the longjmp at line %s (recovery point that is not a catch) on every path" % n.get("l") if okc else
+               "the longjmp at line %s to a recovery point that is not a catch can be reached with the limit-error state still set (path %s): the next catch() refuses an ordinary error" % (n.get("l"), p),
+               eh.file, n.get("l"), "error_handler", what="error_handler leaves the limit-error state set when the error ends in a non-catch recovery point")
+    run.need(nnc >= 1, "non-catch longjmp exits of error_handler (found %d)" % nnc)
+    # (a) LPC-reachable recovery points
+    lpc_reach = cg.reachable_from(["eval_instruction"])
+    nrec = 0
+    for f in sorted(prog.functions(), key=lambda x: (x.file, x.line)):
+        if f.name in ("save_context", "do_catch") or f.noreturn or f.name == "fatal" or f.name not in lpc_reach:
+            continue
+        if not any(True for _ in f.calls("save_context")):
+            continue
+        sj_true = []
+        for b, i, n in f.calls():
+            if n.get("fn") in ctxstate.SETJMP:
+                c = f.branch_cond(b)
+                if c is None:
+                    continue
+                e, t = normalize_cond(c, True)
+                e0 = strip(e)
+                nz = t
+                if e0.get("k") == "Bin" and e0.get("op") in ("==", "!=") and const_val(e0["R"]) == 0:
+                    nz = t if e0["op"] == "!=" else not t
+                sj_true.append((b.id, b.succ[0] if nz else b.succ[1], b.succ[1] if nz else b.succ[0]))
+        if not sj_true:
+            continue
+        nrec += 1
+        run.saw(f)
+        sjb, rec0, norm0 = sj_true[0]
+        normal = cfgq.reach_set(f, [norm0]) if norm0 is not None else set()
+        rec_only = {x for x in cfgq.reach_set(f, [rec0]) if x not in normal} if rec0 is not None else set()
+        cuts = [(b, i, n) for b, i, n in f.nodes() if b.id in rec_only and n.get("k") == "Asg" and n.get("op") == "=" and strip(n["L"]).get("n") == "eval_cost" and const_val(n["R"]) is not None and const_val(n["R"]) <= 1]
+        inst = "recovery-budget:%s:%s" % (rel(f.file), f.name)
+        if not cuts:
+            run.ob("C04-h", inst, False, "%s is a recovery point reachable from LPC code; its recovery branch does not cut eval_cost: after a 'Too long evaluation' that ends here the calling evaluation continues with the renewed budget" % f.name,
+                   f.file, f.line, f.name, what="%s lets the calling LPC evaluation go on with a renewed budget after an eval-cost error" % f.name)
+            continue
+        b, i, n = cuts[0]
+        dead = None
+        unknown = []
+        for c, t, gb in cfgq.guards(f, b.id):
+            if gb not in rec_only and gb != sjb:
+                continue
+            if gb == sjb:
+                continue
+            reads_state = any((x.get("k") == "Call" and x.get("fn") == "get_error_state") or (x.get("k") == "Ref" and x.get("n") == "error_state") for x in walk(c))
+            if reads_state and t and noncatch_cleared:
+                dead = show(c)[:80]
+            elif not reads_state:
+                names = {x.get("n") for x in walk(c) if x.get("k") == "Ref"} | {x.get("f") for x in walk(c) if x.get("k") == "Mem"}
+                if not (names & {"eval_cost"}) and not (names & {"save_csp", "control_stack", "csp"}):
+                    unknown.append(show(c)[:60])
+        verdict = False if dead else (None if unknown else True)
+        run.ob("C04-h", inst, verdict,
+               "the recovery branch stores eval_cost = %s under `%s`, which is always false there: error_handler() cleared the limit-error state before the jump" % (const_val(n["R"]), dead) if dead else
+               ("the recovery branch stores eval_cost = %s under a condition this rule does not read (%s)" % (const_val(n["R"]), "; ".join(unknown)) if unknown else
+                "the recovery branch cuts eval_cost to %s under a condition on the budget / the frame depth" % const_val(n["R"])),
+               f.file, n.get("l"), f.name, what="%s: the cut of the renewed budget is guarded by a test that cannot hold on the recovery branch" % f.name)
+    run.need(nrec >= 2, "recovery points reachable from LPC code (found %d)" % nrec)
